@@ -484,6 +484,13 @@ func init() {
 			s.wobj(p.Obj).Val = &MapObj{Entries: mo.Entries, Extra: args[1].(*Term)}
 			return nil, true
 		},
+		rtPkg + "GhostDuration": func(e *Engine, s *State, f *Frame, fn *ssa.Function, args []Value, retIdx int, advance bool) (Value, bool) {
+			e.usedModels = true
+			if t := s.gterm[e.tagOf(args[0])]; t != nil {
+				return t, true
+			}
+			return e.c.BV(0, 64), true
+		},
 		rtPkg + "Ghost": func(e *Engine, s *State, f *Frame, fn *ssa.Function, args []Value, retIdx int, advance bool) (Value, bool) {
 			e.usedModels = true // ghost queries have no native counterpart
 			return e.c.BV(uint64(s.ghost[e.tagOf(args[0])]), 64), true
